@@ -1,4 +1,25 @@
-"""C20 Planar predicates and spatial queries (bounded tier)."""
+"""C20 Planar predicates and spatial queries (bounded tier).
+
+Contracts on ray.intersect, linalg.is_left / wn_poly / convex_hull, voxelize.voxelize and operations.find_ctrlpts; the
+postconditions are the clauses of the property statement.  The code's tolerances are executed as written, so the
+preconditions are tolerance-separated (GUIDE): "crossing" means some component of d1 x d2 is at least tol = 2**-44 in
+absolute value (the default of ray.intersect, passed explicitly because the default expression is a native float), "skew"
+means the distance of the lines is at least tol, "parallel" means d1 x d2 = 0 exactly.
+
+  ray_crossing   lines built through a common symbolic point X (every pair of crossing lines has this form): status
+                 INTERSECT, (t1, t2) is the unique solution, ray1.eval(t1) = ray2.eval(t2) = X exactly
+  ray_parallel   d2 = k d1: status COLINEAR (parallel and coincident)
+  ray_skew       lines at distance |h| |d1 x d2| >= tol: status SKEW
+  is_left        = twice the signed area (identity) and its symmetries
+  winding        wn_poly(P, V)  <=>  winding number != 0, for closed polygons (self-intersections allowed) and P on no edge;
+                 the spec counts signed crossings of the vertical ray, the code those of the horizontal ray
+  convex_hull    points in general position: subset of the input, counter-clockwise, every input point on or left of
+                 every hull edge (degree-2 order obligations: ctx.check with sign_free_le/lt, nlsat)
+  voxel_*        grid = prod(grid_size) voxels that cover the bounding box; filled[k] = 1 iff a sampled point is inside voxel k
+                 (use_mp / num_procs variants: C17)
+  find_ctrlpts_* the (p+1) [x (q+1)] window of control points of the knot span(s) of the parameter(s) (spec.span_spec)
+
+Floating-point agreement ("agree with exact rational arithmetic") is vacuous under A1 and not claimed (DESIGN section 8)."""
 import itertools
 from fractions import Fraction
 
